@@ -35,8 +35,8 @@ Proof.
   rewrite (nth_map_uni c (fun o => map (fun sp => allowance s o sp) (universe c)) [] x Hx).
   apply (nth_map_uni c (fun sp => allowance s x sp)); exact Hy.
 Qed.
-Lemma gl_observe c s x : in_uni c x = true -> gl (observe c s) x = listed c s x.
-Proof. intros H. unfold gl, observe. cbn [o_list]. apply nth_map_uni; exact H. Qed.
+Lemma gl_observe c s x : in_uni c x = true -> gl (observe c s) x = Some (listed c s x).
+Proof. intros H. unfold gl, observe. cbn [o_list]. apply (nth_map_uni c (fun x => Some (listed c s x))); exact H. Qed.
 
 (* ------------------------------------------------------------------ *)
 (* the specification does not depend on getter values outside the universe *)
@@ -79,7 +79,7 @@ Lemma obs_eqb_refl o : obs_eqb o o = true.
 Proof.
   unfold obs_eqb. rewrite Z.eqb_refl, !Bool.eqb_reflx, !optZ_eqb_refl.
   rewrite (list_eqb_refl Z.eqb) by apply Z.eqb_refl.
-  rewrite (list_eqb_refl Bool.eqb) by apply Bool.eqb_reflx.
+  rewrite (list_eqb_refl ob_eqb) by (intros [b|]; [apply Bool.eqb_reflx|reflexivity]).
   rewrite (list_eqb_refl (list_eqb Z.eqb)) by (intros; apply list_eqb_refl; apply Z.eqb_refl).
   reflexivity.
 Qed.
@@ -97,8 +97,8 @@ Qed.
 (* the clauses                                                         *)
 Lemma getters_ok c h s : Rel c h s -> m_getters c h (observe c s) = true.
 Proof.
-  intros (Rn & Rp & Rl & Ra). unfold m_getters. cbn [observe o_paused o_mig].
-  rewrite Rp, Ra, !Bool.eqb_reflx. cbn [andb]. rewrite andb_true_r.
+  intros (Rn & Rp & Rl & Ra). unfold m_getters. cbn [observe o_paused o_mig o_trap].
+  rewrite Rp, Ra, !Bool.eqb_reflx. cbn [andb negb]. rewrite !andb_true_r.
   apply forallb_forall. intros x Hx. rewrite (gl_observe c s x (in_universe c x Hx)), Rl.
   apply Bool.eqb_reflx.
 Qed.
